@@ -4,9 +4,9 @@ import "github.com/New-JAMneration/JAM-Protocol/internal/zzvt"
 
 // ---- two registers and two immediates (A.5.12): load_imm_jump_ind ----------------------
 
-func zzStepLoadImmJumpInd(single bool) {
+func zzStepLoadImmJumpInd(single bool, tails []int) {
 	pc := 1
-	n := pc + []int{3, 12}[zzvt.Range("tail", 0, 1)]
+	n := pc + tails[zzvt.Range("tail", 0, len(tails)-1)]
 	op := byte(180)
 	w := zzWindow(n, pc, op)
 	regs := zzSymRegs()
@@ -40,11 +40,12 @@ func zzStepLoadImmJumpInd(single bool) {
 // two may coincide), halt exactly at 2^32 - 2^16 and panic otherwise (empty jump table), every
 // skip length. Bound: 3 or 12 bytes from the opcode to the end of the code.
 //zz:workers=8
-func ZZ_C01_step_load_imm_jump_ind() { zzStepLoadImmJumpInd(false) }
+func ZZ_C01_step_load_imm_jump_ind() { zzStepLoadImmJumpInd(false, []int{3, 12}) }
 
-// ZZ_C02_step_load_imm_jump_ind: the same through the single-step engine.
+// ZZ_C02_step_load_imm_jump_ind: the same through the single-step engine (3 or 7 bytes to the
+// end of the code; the long operand windows are decoded by code shared with the block engine).
 //zz:workers=8
-func ZZ_C02_step_load_imm_jump_ind() { zzStepLoadImmJumpInd(true) }
+func ZZ_C02_step_load_imm_jump_ind() { zzStepLoadImmJumpInd(true, []int{3, 7}) }
 
 // ZZ_C02_diff_formats: the two engines side by side. One instruction of a representative
 // opcode per operand format with immediates or offsets (one immediate, extended immediate, two
@@ -53,13 +54,20 @@ func ZZ_C02_step_load_imm_jump_ind() { zzStepLoadImmJumpInd(true) }
 // immediates; the register-only formats have their own step harnesses) decoded from arbitrary operand bytes with every skip length, executed by
 // the pre-decoded engine and by the single-step engine from the same arbitrary registers on
 // an empty memory: same exit reason (with its argument), same next counter, same registers,
-// same gas. Bound: 9 bytes from the opcode to the end of the code.
+// same gas. Bound: 7 bytes from the opcode to the end of the code.
 //zz:workers=16 paths=60000 conccap=260
-func ZZ_C02_diff_formats() {
-	ops := []byte{10, 20, 30, 40, 51, 70, 80, 120, 170, 180}
+func ZZ_C02_diff_formats() { zzDiffFormats([]byte{30, 40, 70, 80, 170, 180}) }
+
+// ZZ_C02_diff_formats_all: the same for the remaining formats with immediates (ecalli,
+// load_imm_64, load_imm, two registers + immediate), which the quick tier covers through the
+// per-format step harnesses.
+//zz:tier=thorough workers=16 paths=60000 conccap=260
+func ZZ_C02_diff_formats_all() { zzDiffFormats([]byte{10, 20, 51, 120}) }
+
+func zzDiffFormats(ops []byte) {
 	op := ops[zzvt.Range("format", 0, len(ops)-1)]
 	pc := 1
-	w := zzWindow(pc+9, pc, op)
+	w := zzWindow(pc+7, pc, op)
 	if op == 40 || op == 80 || op == 170 {
 		// static branches look at the opcode stored at their target: keep the bytes behind the
 		// first five operand bytes concrete (trap), so that only targets inside the operands
